@@ -546,9 +546,11 @@ class ExtendedKalmanFilter:
             impl_sensor_jacobian.execute(*state, *self.calibration_vector)
         )
         result = np.zeros((sensor_size, self.state_size))
+        # The symbolic jacobian has one column per state and per calibration symbol
+        row_stride = self.state_size + self.calibration_size
         for row in range(sensor_size):
             for col in range(self.state_size):
-                result[row, col] = computed_jacobian[row * sensor_size + col]
+                result[row, col] = computed_jacobian[row * row_stride + col]
         return result
 
     def process_model(self, dt, state, covariance, control=None):
